@@ -5,11 +5,11 @@ from checks import _numtostr as N
 
 META = {
     "property_id": "C11",
-    "technique": "round trip executed on the real code (NumberToString(17|9) then StringToNumber, bits in = bits out) over boundary sets and uniform bit patterns, all 2^32 floats in the thorough tier; the formatter half is cross-checked against the Lean model and an exact-rational reference reading (IEEE 754 round-half-even of the decimal value); Lean theorems: the formatter half in full (17/9-digit text = reference text for every bit pattern; 17/9 correctly rounded digits identify the value), the decomposition, integers below 2^53 through the real parser model, and the whole round trip through the real parser model for doubles (roundtrip17) and floats (roundtrip9)",
-    "level": "exploration",
+    "technique": "Lean 4 theorems roundtrip17 / roundtrip9 (formatter model ∘ parser model = identity on bit patterns, every finite double / float) + correspondence of both models with the real code; round trip executed on the real code (NumberToString(17|9) then StringToNumber, bits in = bits out) over boundary sets and uniform bit patterns, all 2^32 floats in the thorough tier; the formatter half is cross-checked against the Lean model and an exact-rational reference reading (IEEE 754 round-half-even of the decimal value); Lean theorems: the formatter half in full (17/9-digit text = reference text for every bit pattern; 17/9 correctly rounded digits identify the value), the decomposition, integers below 2^53 through the real parser model, and the whole round trip through the real parser model for doubles (roundtrip17) and floats (roundtrip9)",
+    "level": "proof",
     "design_ref": "DESIGN.md §6 C11, notes/design-numtostr.md",
     "text": "Proved (kernel-checked): the formatter half in full (identifies17 / identifies9: no fault, text = reference %.17g / %.9g text, which read exactly and rounded to nearest-even is the original bits), and for DOUBLES the whole property through the real parser model: roundtrip17 : RoundTrip17 parseDouble - for every finite double NumberToString(17) raises no fault and StringToNumber plus the callers' conversion returns the original bits (parsesExactly17: shape and 1/32-ulp margin of every %.17g text - shape17_format, marginText_format, text17_format - and the parser-side theorem parse_exact17 of the StrToNum area, which covers every mantissa: analytic error bound above a width threshold, a kernel-evaluated table of 16 996 (mantissa, exponent) pairs below it). Three numerals, 1e-273, 1e-286, 1e-292, are parsed one ulp low although 0.04-0.07 ulp from the tie (within C09's one-ulp bound); they are not %.17g outputs (exc_bits: the nearest doubles print as 1.0000000000000001e-273, ...). For FLOATS likewise: roundtrip9 : RoundTrip9 (parseDouble then float(double)) - every %.9g text is a Text17 (shape9_format), the parser is within one double ulp of the correctly rounded double on every such text for every mantissa (parse_close17), which is below 1/64 float ulp (close_value, parsesClose9), and that suffices (roundtrip9_of_close). Nothing of the statement is left open; what is trusted is the correspondence of the two Lean models with the C++ (tested) and the callers' conversions (double(integer), float(double)) taken as IEEE round-to-nearest-even. The executed round trip is the second line: quick = boundary sets (powers of two and ten +-2 ulp, every binade, subnormals, short mantissas, short decimals) and 200k uniform doubles under ASan/UBSan plus 3.2M uniform doubles and 16M floats unsanitized; thorough = 24M doubles and all 2^32 float bit patterns (exhaustive, unsanitized -O2 build).",
-    "note": "Testing, not proof, for everything except the listed theorems. Trusted: the harness, g++/libc for nothing but memcpy of bits; the Lean reference reading (FmtSpec.readBits) is used only to attribute a failure to the formatter or the parser half. The exhaustive float sweep runs on a non-sanitized -O2 build of the same headers.",
+    "note": "The theorems are about the NumberToString and StringToNumber models (tied to the code by the C09/C10 correspondence streams run here too); the sweep on the real code is testing and labelled so. Trusted: the harness, g++/libc for nothing but memcpy of bits; the Lean reference reading (FmtSpec.readBits) is used only to attribute a failure to the formatter or the parser half. The exhaustive float sweep runs on a non-sanitized -O2 build of the same headers.",
 }
 
 THEOREMS = [
@@ -160,6 +160,6 @@ def run(ctx):
     ctx.notes += ["level: exploration - proved: formatter half (identifies17/9) and the whole round trip through the real parser model for doubles (roundtrip17) and floats (roundtrip9); the executed round trips test the model correspondence"]
 
 
-FINISH = dict(level="exploration",
+FINISH = dict(level="proof",
               rule="bits in = bits out through the real NumberToString(17|9) and StringToNumber: specials, every power of two and ten (+-ulps), every binade, subnormals, short mantissas, short decimals, uniform bit patterns; thorough: 24M uniform doubles and all 2^32 floats",
               checker_cmd="cd lean && lake build Qentem.Props.C11 && lake env lean <#print axioms of the listed theorems>")
